@@ -350,8 +350,6 @@ class Gen:
         entry = rng.sample(reached, rng.randrange(0, len(reached) + 1)) if reached else []
         if rng.random() < 0.1 and ids:
             entry = entry + [rng.choice(ids)]
-        if rng.random() < 0.05:
-            reached = reached + [max(ids or [0]) + 50]      # unknown node id -> AttackGraphException
         self.do(('add_att', h, aid, reached, entry))
 
     def step(self):
